@@ -209,3 +209,158 @@ pub fn svp<const RS: usize, const BS: usize, const LR: usize, const LB: usize, c
     core::mem::forget(table);
     vsym::reached();
 }
+
+/// probe: can the FFT table for m = 4 (n = 8) be constructed under Kani? (trigonometry on constants)
+pub fn probe_table_m4() {
+    let table = ReimFFTTable::<f64>::new(4);
+    assert!(table.m() == 4);
+    core::mem::forget(table);
+    vsym::reached();
+}
+
+// ---------------------------------------------------------------------------------------------
+// C07-A1 / C11-A2: vector-matrix product `vmp_prepare` + `vmp_apply_dft_to_dft` of
+// reference/fft64/vmp.rs with substituted reim4 kernels.  n = 8 (one block of 4 Gaussian
+// integers), cols_in = cols_out = 1.  The matrix is CONCRETE (small integers, prepared by the
+// real vmp_prepare, so the block-interleaved layout is the repository's), the vector and all
+// prior output are symbolic.  Specification (exact, on the bit patterns):
+//   res limb c = sum_{r < min(a_size, rows)} a limb r (*) M[r][c + limb_offset]   for c + limb_offset < min(size, res_size),
+//   zero for the remaining limbs of res; nothing else changes.
+use poulpy_cpu_ref::reference::fft64::vmp::{vmp_apply_dft_to_dft, vmp_prepare};
+use poulpy_hal::layouts::{MatZnx, VmpPMat};
+
+const NV: usize = 8;
+
+fn mat_entry(r: usize, c: usize, i: usize) -> i64 {
+    ((r * 7 + c * 3 + i * 5) % 9) as i64 - 4
+}
+
+pub fn vmp<const R: usize, const S: usize, const A: usize, const RS: usize, const LM: usize, const LA: usize, const LR: usize>(limb_offset: usize) {
+    let a = Buf::<LA>::sym();
+    let before = Buf::<LR>::sym();
+    vmp_core::<R, S, A, RS, LM, LA, LR>(limb_offset, a, before);
+    vsym::reached();
+}
+
+pub fn vmp_core<const R: usize, const S: usize, const A: usize, const RS: usize, const LM: usize, const LA: usize, const LR: usize>(limb_offset: usize, a: Buf<LA>, before: Buf<LR>) {
+    // concrete matrix: rows R, cols_in 1, cols_out 1, size S  (LM = NV*R*S)
+    let mut mat = Buf::<LM>([0i64; LM]);
+    let mut r = 0;
+    while r < R {
+        let mut c = 0;
+        while c < S {
+            let mut i = 0;
+            while i < NV {
+                mat.0[NV * (r * S + c) + i] = mat_entry(r, c, i);
+                i += 1;
+            }
+            c += 1;
+        }
+        r += 1;
+    }
+    let mut pm = Buf::<LM>([0i64; LM]);
+    let table = ReimFFTTable::<f64>::new(NV / 2);
+    {
+        let m: MatZnx<&[u8]> = MatZnx::from_data(mat.bytes(), NV, R, 1, 1, S);
+        let mut p: VmpPMat<&mut [u8], Probe> = VmpPMat::from_data(pm.bytes_mut(), NV, R, 1, 1, S);
+        let mut tmp = [0f64; NV];
+        vmp_prepare::<_, _, Probe>(&table, &mut p, &m, &mut tmp);
+    }
+    let mut res = before;
+    {
+        let p: VmpPMat<&[u8], Probe> = VmpPMat::from_data(pm.bytes(), NV, R, 1, 1, S);
+        let av: VecZnxDft<&[u8], Probe> = VecZnxDft { data: a.bytes(), n: NV, cols: 1, size: A, max_size: A, _phantom: PhantomData };
+        let mut rv: VecZnxDft<&mut [u8], Probe> = VecZnxDft { data: res.bytes_mut(), n: NV, cols: 1, size: RS, max_size: RS + 1, _phantom: PhantomData };
+        let mut tmp = [0f64; 16 + 8 * 4];
+        vmp_apply_dft_to_dft::<_, _, _, Probe>(&mut rv, &av, &p, limb_offset, &mut tmp);
+    }
+    let row_max = if A < R { A } else { R };
+    let col_max = if S < RS { S } else { RS };
+    assert_col(&before, &res, NV, 1, 0, RS, |c, i| {
+        let src = c + limb_offset;
+        if limb_offset >= col_max || src >= col_max {
+            return 0;
+        }
+        // coefficient i of limb c: i < 4 real part k = i, else imaginary part k = i - 4
+        let k = i % 4;
+        let mut acc: i64 = 0;
+        let mut r = 0;
+        while r < row_max {
+            let (ar, ai) = (a.at(NV, 1, 0, r, k), a.at(NV, 1, 0, r, k + 4));
+            let (mr, mi) = (mat_entry(r, src, k), mat_entry(r, src, k + 4));
+            acc = acc.wrapping_add(if i < 4 { ar.wrapping_mul(mr).wrapping_sub(ai.wrapping_mul(mi)) } else { ar.wrapping_mul(mi).wrapping_add(ai.wrapping_mul(mr)) });
+            r += 1;
+        }
+        acc
+    });
+    core::mem::forget(table);
+}
+
+#[cfg(test)]
+mod vmp_tests {
+    use super::*;
+    fn fill<const L: usize>(seed: i64) -> Buf<L> {
+        let mut b = Buf::<L>([0i64; L]);
+        for i in 0..L {
+            b.0[i] = (seed * 31 + i as i64 * 17) % 101 - 50;
+        }
+        b
+    }
+    /// native validation of the vmp oracle on concrete data (spec validation, DESIGN §4)
+    #[test]
+    fn vmp_oracle_matches_code_on_concrete_data() {
+        vmp_core::<2, 2, 2, 2, 32, 16, 24>(0, fill(1), fill(2));
+        vmp_core::<2, 3, 2, 3, 48, 16, 32>(0, fill(3), fill(4));
+        vmp_core::<3, 2, 2, 2, 48, 16, 24>(0, fill(5), fill(6));
+        vmp_core::<2, 2, 3, 3, 32, 24, 32>(0, fill(7), fill(8));
+        vmp_core::<1, 1, 1, 1, 8, 8, 16>(0, fill(9), fill(10));
+        vmp_core::<2, 3, 2, 2, 48, 16, 24>(0, fill(11), fill(12));
+    }
+    #[test]
+    fn vmp_oracle_with_limb_offset() {
+        vmp_core::<2, 3, 2, 3, 48, 16, 32>(1, fill(13), fill(14));
+        vmp_core::<2, 3, 2, 3, 48, 16, 32>(2, fill(15), fill(16));
+        vmp_core::<2, 2, 2, 2, 32, 16, 24>(1, fill(17), fill(18));
+    }
+}
+
+/// C11 (oracle-free): `vmp_apply_dft_to_dft` with a limb offset, run from two independent
+/// symbolic fills of the output: the RS active limbs must not depend on the prior content.
+pub fn vmp_two_fills<const R: usize, const S: usize, const A: usize, const RS: usize, const LM: usize, const LA: usize, const LR: usize>(limb_offset: usize) {
+    let mut mat = Buf::<LM>([0i64; LM]);
+    let mut idx = 0;
+    while idx < LM {
+        mat.0[idx] = mat_entry(idx / (NV * S), (idx / NV) % S, idx % NV);
+        idx += 1;
+    }
+    let mut pm = Buf::<LM>([0i64; LM]);
+    let table = ReimFFTTable::<f64>::new(NV / 2);
+    {
+        let m: MatZnx<&[u8]> = MatZnx::from_data(mat.bytes(), NV, R, 1, 1, S);
+        let mut p: VmpPMat<&mut [u8], Probe> = VmpPMat::from_data(pm.bytes_mut(), NV, R, 1, 1, S);
+        let mut tmp = [0f64; NV];
+        vmp_prepare::<_, _, Probe>(&table, &mut p, &m, &mut tmp);
+    }
+    let a = Buf::<LA>::sym();
+    let mut r1 = Buf::<LR>::sym();
+    let mut r2 = Buf::<LR>::sym();
+    let p: VmpPMat<&[u8], Probe> = VmpPMat::from_data(pm.bytes(), NV, R, 1, 1, S);
+    let av: VecZnxDft<&[u8], Probe> = VecZnxDft { data: a.bytes(), n: NV, cols: 1, size: A, max_size: A, _phantom: PhantomData };
+    {
+        let mut rv: VecZnxDft<&mut [u8], Probe> = VecZnxDft { data: r1.bytes_mut(), n: NV, cols: 1, size: RS, max_size: RS + 1, _phantom: PhantomData };
+        let mut tmp = [0f64; 16 + 8 * 4];
+        vmp_apply_dft_to_dft::<_, _, _, Probe>(&mut rv, &av, &p, limb_offset, &mut tmp);
+    }
+    {
+        let mut rv: VecZnxDft<&mut [u8], Probe> = VecZnxDft { data: r2.bytes_mut(), n: NV, cols: 1, size: RS, max_size: RS + 1, _phantom: PhantomData };
+        let mut tmp = [0f64; 16 + 8 * 4];
+        vmp_apply_dft_to_dft::<_, _, _, Probe>(&mut rv, &av, &p, limb_offset, &mut tmp);
+    }
+    let mut i = 0;
+    while i < NV * RS {
+        assert!(r1.0[i] == r2.0[i], "vmp result depends on what the output buffer held before the call (stale limb)");
+        i += 1;
+    }
+    core::mem::forget(table);
+    vsym::reached();
+}
